@@ -9,7 +9,7 @@ from common import *
 import gen, pipeline, model, findings as F, oracle
 from props import base, c01
 
-PROPS_MODULES = ["ShexerModel.Props.C14", "ShexerModel.Props.C14b"]
+PROPS_MODULES = ["ShexerModel.Props.C14", "ShexerModel.Props.C14b", "ShexerModel.Props.GenStrTune"]
 DEPS = []
 replay = base.replay
 
